@@ -46,7 +46,7 @@ class _BaseITML(MahalanobisMixin):
     else:
       bounds = check_array(bounds, allow_nd=False, ensure_min_samples=0,
                            ensure_2d=False)
-      bounds = bounds.ravel()
+      bounds = bounds.ravel().copy()  # don't modify the caller's array
       if bounds.size != 2:
         raise ValueError("`bounds` should be an array-like of two elements.")
       self.bounds_ = bounds
